@@ -565,17 +565,32 @@ func checkDeep(c deepCase) (kind string, msg string) {
 	for _, tg := range []string{"bash", "batch"} {
 		out := filepath.Join(dir, "out-"+tg)
 		os.MkdirAll(out, 0o755)
-		ctx, cancel := context.WithTimeout(context.Background(), 300*time.Second)
-		cmd := exec.CommandContext(ctx, tsh, "-i", in, "-o", out, "-t", tg)
 		var stderr limitedTail
-		cmd.Stderr = &stderr
-		err := cmd.Run()
-		timedOut := ctx.Err() == context.DeadlineExceeded
-		cancel()
+		var err error
+		timedOut := false
+		for attempt := 0; attempt < 2; attempt++ {
+			// the large inputs take about 20 s on an idle machine; a run over the limit is repeated once, after the machine has
+			// become responsive again, before it counts
+			limit := 300 * time.Second
+			if attempt == 1 {
+				run.WaitResponsive()
+				limit = 450 * time.Second
+			}
+			stderr = limitedTail{}
+			ctx, cancel := context.WithTimeout(context.Background(), limit)
+			cmd := exec.CommandContext(ctx, tsh, "-i", in, "-o", out, "-t", tg)
+			cmd.Stderr = &stderr
+			err = cmd.Run()
+			timedOut = ctx.Err() == context.DeadlineExceeded
+			cancel()
+			if !timedOut {
+				break
+			}
+		}
 		text := stderr.String()
 		switch {
 		case timedOut:
-			return "hang", fmt.Sprintf("%s target: tsh did not finish within 300 s (%s, depth %d)", tg, c.Shape, c.Depth)
+			return "hang", fmt.Sprintf("%s target: tsh did not finish within 300 s and, repeated, within 450 s (%s, depth %d)", tg, c.Shape, c.Depth)
 		case strings.Contains(text, "fatal error:") || strings.Contains(text, "goroutine stack exceeds") || strings.Contains(text, "signal:"):
 			return "died", fmt.Sprintf("%s target: the process was killed by the runtime (%s, depth %d): %s", tg, c.Shape, c.Depth, firstLine(text))
 		case strings.Contains(text, "panic: runtime error"):
